@@ -17,7 +17,7 @@ def register(PROPS):
                  'instant.c and event.c) and the output is compared element by element with a stable counting sort by chronological rank: '
                  'permutation of the input, non-decreasing under echs_instant_lt_p / echs_event_lt_p and in chronological order (all-day '
                  'value before the timed values of its day), equal keys in input order (events; they carry their index in oid/dur/sts). '
-                 'The array ends at an inaccessible page (plain) or is an exact-size heap block (asan), so any access behind it is a crash finding.',
+                 'The array ends at an inaccessible page (plain) or is an exact-size heap block (asan), so the first access behind it is caught: reported as oob/... by the plain driver (fault handler, the run goes on) and as crash/... by the asan driver.',
         'note': 'Exhaustive over inputs only for the short arrays (which stay inside InsertionSort, n <= 32); for longer arrays exhaustive over '
                 '(length x family x parameter x alphabet), not over inputs.  Stability of echs_instant_sort is unobservable: echs_instant_lt_p '
                 'compares the whole 64-bit word (after a bijective +1 on H and ms), so two instants that compare equal are the same bit pattern; '
